@@ -260,6 +260,11 @@ def havoc_for_call(ex, st, pre, items, ctor_ghost=()):
                 if name != '$alloc' and name != '$srcs':
                     st.heap[name] = fresh('hv_' + name, st.heap[name].sort)
             continue
+        if kind == 'anylist':
+            for nm in list(st.heap):
+                if nm.startswith('L:'):
+                    st.heap[nm] = fresh('hl', st.heap[nm].sort)
+            continue
         if kind == 'family':
             names = set(st.heap)
             for cname, ci in ex.reg.classes.items():
